@@ -521,7 +521,7 @@ def gen_out_of_scope(rng, flavor):
 def harness(ctx):
     R = vlib.REPO
     exe, log = ctx.cc('h_sched', [os.path.join(vlib.VERIF, 'harness/h_sched.c'), R + '/librfn/list.c', R + '/librfn/messageq.c',
-                                  R + '/librfn/util.c'], ['-I' + R + '/librfn'])      # time_now()/usleep(): the harness's own virtual clock
+                                  R + '/librfn/util.c'], ['-I' + R + '/librfn'] + ctx.FORKMAIN)      # time_now()/usleep(): the harness's own virtual clock
     if not exe:
         raise vlib.Unbuildable('scheduler harness does not compile against the repository: ' + log[-1500:])
     return exe
